@@ -150,7 +150,7 @@ func (fv *FuncVC) sortSlice(call *ast.CallExpr, stable bool, st *State) ([]Val, 
 	k := fv.nextOrd("call:" + name)
 	et := elemType(xs.GoT)
 	es := fv.th.sortOf(et)
-	h := fv.declSliceHeap(es)
+	h := fv.declSliceHeapT(et)
 	ref := sx("sl_ref", xs.T)
 	n := sx("sl_len", xs.T)
 	H := fv.getHeap(st, h)
@@ -319,7 +319,7 @@ func (fv *FuncVC) sortSort(call *ast.CallExpr, st *State) ([]Val, bool) {
 		}
 		v := Val{sx(fv.th.fieldAcc(string(ss), f.Name()), x.T), SSlice, f.Type()}
 		es := fv.th.sortOf(elemType(f.Type()))
-		fields = append(fields, sliceField{f.Name(), v, fv.declSliceHeap(es), sx("sl_ref", v.T), es})
+		fields = append(fields, sliceField{f.Name(), v, fv.declSliceHeapT(elemType(f.Type())), sx("sl_ref", v.T), es})
 	}
 	// ---- Swap really swaps (checked on the current state, arbitrary indices in range)
 	a, b := fv.th.freshConst("swap_i", SInt), fv.th.freshConst("swap_j", SInt)
